@@ -53,7 +53,10 @@ def parse(
             )
             return func
         else:
-            parser = parser_cls.apply_for(func, options=options, no_cache=no_cache)
+            # a decoration without options declares the default options: it must not pick up the
+            # cached parser of another decoration of the same function that was given its own
+            parser = parser_cls.apply_for(
+                func, options=options if options is not None else parser_cls.options_cls(), no_cache=no_cache)
             return parser.wrap(
                 parse_params=not ignore_params,
                 parse_result=not ignore_result,
